@@ -308,11 +308,13 @@ PROPS = {
     },
     "C08": {
         "props_file": "Props/C08.v",
-        "run_files": ["Run/CaseConn.v"],
+        "run_files": ["Run/CaseConn.v", "Run/CaseLst.v"],
         "imports": ["Lib.Bytes", "Codec.Desc", "Conn.Types", "Conn.Prog", "Conn.Sem1", "Run.CaseConn"],
         "case_type": "conn_case",
         "checkers": {"BASE": "check_c08c", "SEG": "check_c08c", "MAL": "check_c08c", "CAN": "check_c08c", "WCAN": "check_c08c"},
-        "harness": [{"bin": "conn", "env": {"VERIF_FAMILIES": "BASE,SEG,MAL,CAN,WCAN"}}],
+        "harness": [{"bin": "conn", "env": {"VERIF_FAMILIES": "BASE,SEG,MAL,CAN,WCAN"}},
+                    # segmentation at the listener: the PROXY header and the first bytes of the session in one segment or in two
+                    {"bin": "listener", "crate": "harness-app", "families": ["ADM"], "env": {"VERIF_FAMILY": "ADM"}, "case_type": "lstcase", "imports": ["Lib.Bytes", "Limiter.Limiter", "Listener.Machine", "Listener.Wire", "Run.CaseLst"], "checkers": {"ADM": "check_c15"}, "shard": 20}],
         "shard": 40,
         "quick_scale": 1, "thorough_scale": 8, "search_factor": 4,
         "ties": ["conn binary: real Connection::listen on a scripted transport/client/adapters in a paused runtime vs the byte-level model Conn.Sem2.run2 on the delivered timed segments (sends, calls, outcome, virtual ms), with no class exempted",
